@@ -1,1 +1,2 @@
 import DM.Props.C12
+import DM.Props.C06
